@@ -120,6 +120,28 @@ func c07Read(r *core.Run, p C07Case) {
 			panic(err)
 		}
 		c07Judge(r, p, data, plain, "long-runs", fmt.Sprintf("'B', run of %d x 'A' (matches of 273 at distance 1), 'c'; header dictionary 4096, mode %s, ReaderConfig.DictCap %d", p.Fill, modeNames[p.Mode], p.DictCap))
+	case "phase":
+		// two literals and 14 maximal matches fill the 4 KiB window up to 272 free bytes (the decoder
+		// stops and waits for the caller); the second filling starts with Fill literals and goes on
+		// with maximal matches: over Fill = 0..272 a maximal match arrives at every amount of free
+		// space, in a ring buffer whose write index has wrapped while its read index has not
+		ops := []ref.Op{{Kind: ref.OpLit, Byte: 'B'}, {Kind: ref.OpLit, Byte: 'A'}}
+		for k := 0; k < 14; k++ {
+			ops = append(ops, ref.Op{Kind: ref.OpMatch, Len: 273, Dist: 1})
+		}
+		for k := 0; k < p.Fill; k++ {
+			ops = append(ops, ref.Op{Kind: ref.OpLit, Byte: byte('a' + k%7)})
+		}
+		for k := 0; k < 33; k++ {
+			ops = append(ops, ref.Op{Kind: ref.OpMatch, Len: 273, Dist: 7})
+		}
+		ops = append(ops, ref.Op{Kind: ref.OpLit, Byte: 'c'})
+		pr, _ := ref.PropsFromCode(byte(p.Code))
+		data, plain, err := ref.EncodeAlone(pr, 4096, ops, p.Mode != 0, p.Mode != 1)
+		if err != nil {
+			panic(err)
+		}
+		c07Judge(r, p, data, plain, "match-phases", fmt.Sprintf("2 literals, 14 maximal matches, %d literals, 33 maximal matches, 'c'; header dictionary 4096, mode %s, ReaderConfig.DictCap %d", p.Fill, modeNames[p.Mode], p.DictCap))
 	case "walk":
 		pr, _ := ref.PropsFromCode(byte(p.Code))
 		data, plain, err := ref.EncodeAlone(pr, 1<<20, longWalk(p.Fill, 3000), p.Mode != 0, p.Mode != 1)
@@ -231,6 +253,10 @@ func runC07(r *core.Run) {
 	// long runs at every phase of a 4 KiB reader window
 	for n := 8100; n < 8400; n++ {
 		cases = append(cases, C07Case{Kind: "runs", Fill: n, Code: 93, Mode: n % 3, DictCap: 4096})
+	}
+	// a maximal match at every amount of free window space, second filling of the window
+	for j := 0; j <= 280; j++ {
+		cases = append(cases, C07Case{Kind: "phase", Fill: j, Code: 93, Mode: j % 3, DictCap: 4096})
 	}
 	for n := 20000; n < 20280; n += 3 {
 		cases = append(cases, C07Case{Kind: "runs", Fill: n, Code: 0, Mode: n % 3, DictCap: 4096})
